@@ -297,6 +297,7 @@ class NUTS(Sampler):
             # written in a stable way to avoid overflow when computing
             # exp(diff_Ham) for large values of diff_Ham
             alpha_prime = 1 if diff_Ham > 0 else np.exp(diff_Ham)
+            if np.isnan(alpha_prime): alpha_prime = 0 # a leaf whose energy is not a number is never moved to (a NaN here would turn the adapted step size into NaN for good)
             n_alpha_prime = 1
             #
             theta_minus, theta_plus = theta_prime, theta_prime
